@@ -44,6 +44,9 @@ def pool(rng, scratch):
     items.append(("syntax-error-first-token", {"text": "prog name prog\nversion 1.0\nVac | 0\n"}))
     items.append(("syntax-error-first-token-2", {"text": "= name prog\nversion 1.0\nVac | 0\n"}))
     items.append(("syntax-error-missing-name", {"text": "version 1.0\nVac | 0\n"}))
+    items.append(("leading-blank-1", {"text": "\n" + H + "Vac | 0\n"}))
+    items.append(("leading-blank-2", {"text": "\n\n" + H + "Sgate(0.5) | 0\nMeasureFock() | 0\n"}))
+    items.append(("syntax-error-missing-name-after-blank", {"text": "\n\nversion 1.0\nVac | 0\n"}))
     items.append(("syntax-error-eof", {"text": H + "Op(1, 2\n"}))
     items.append(("syntax-error-char", {"text": H + "Op(1 ? 2) | 0\n"}))
     items.append(("syntax-error-late", {"text": H + "int n = 3\nfloat array x =\n    1, 2\nOp | \n"}))
@@ -174,7 +177,7 @@ def run(tier, seed):
             for b in arith:
                 hists.append([a, b])
         # ... and among the scripts that fail in the lexer/parser (plus one valid script and one failing later)
-        syn = [it for it in items if it[0].startswith("syntax-error")] + [it for it in items if it[0] in ("binds-n", "fails-after-binding-n")]
+        syn = [it for it in items if it[0].startswith(("syntax-error", "leading-blank"))] + [it for it in items if it[0] in ("binds-n", "fails-after-binding-n")]
         for a in syn:
             for b in syn:
                 hists.append([a, b])
